@@ -130,6 +130,7 @@ claim("C04", "other",
       "store only into RawText nodes (across inlines: exactly the slice of the length-preserving rewrite at the node's own "
       "prefix-sum offset); _render_code emits every code line verbatim behind the continuation prefix inside a fence that is a "
       "run of the fence character at least as long as the original and as _min_fence_length demands, with the info string; "
+      "a code span is written between the shortest backtick run that is no run of its text (loop invariant; the run set through an uninterpreted findall); "
       "code spans, autolinks, URLs, inline HTML, HTML blocks, link definitions and footnote labels are copied from the element's "
       "fields; preprocess_tag_block_spacing inserts only blank lines and none inside fenced code. The literal-span sequence comparison is the bounded "
       "layer; two defects found by it (code re-split at Unicode separators, blank line inserted inside fenced code) were repaired.",
